@@ -275,7 +275,7 @@ fn gen_string_literal(tape: &mut Tape, max_pieces: usize) -> (String, String) {
                 val.push(c);
             }
             1 => {
-                let c = *tape.pick(&['é', 'ß', 'ü', 'Ω', '→', '日', '本', '\u{a0}', '\u{85}', 'à', '😀', '\u{10FFFF}', '\u{7f}', '\u{1}']);
+                let c = *tape.pick(&['é', 'ß', 'ü', 'Ω', '→', '日', '本', '\u{a0}', '\u{85}', 'à', '😀', '\u{10FFFF}', '\u{7f}', '\u{1}', '\u{feff}', '\u{200b}', '\u{2028}']);
                 lit.push(c);
                 val.push(c);
             }
@@ -499,6 +499,26 @@ impl Property for C11 {
                             }
                         }
                         Err(e) => o.fail("C11/string-value", format!("literal {} does not evaluate: {}", lit, e)),
+                    }
+                    // the same source read from a file on disk (1 in 8)
+                    if !o.is_fail() && fnv(text.as_bytes()) % 8 == 0 {
+                        o.class("string-literal-in-a-file");
+                        self.ucg.reset();
+                        let (path, r) = self.ucg.build_src(&text, true);
+                        self.ucg.cleanup_case_dir(&path);
+                        match r {
+                            Ok(v) => {
+                                let got = match v.as_ref() {
+                                    Val::Tuple(fs) => fs.iter().find(|(k, _)| k.as_ref() == "s").map(|(_, v)| v.clone()),
+                                    _ => None,
+                                };
+                                match got.as_deref() {
+                                    Some(Val::Str(s)) if s.as_ref() == val => {}
+                                    other => o.fail("C11/string-value-in-file", format!("literal {} in a file on disk should evaluate to {:?} but the build binds {:?}", lit, val, other)),
+                                }
+                            }
+                            Err(e) => o.fail("C11/string-value-in-file", format!("literal {} evaluates from a string but not from a file: {}", lit, e)),
+                        }
                     }
                 }
                 o
